@@ -57,8 +57,16 @@ def make_loss(cfg):
 
     # the equation reads the parameter "a" (its value is 1, so the residual is q + a_coef * u): the dynamic term must be
     # computed with the GIVEN parameters, whatever rows an observation part carries for that key
+    hc = cfg.get("het_c")     # an additive parameter c (nominal value 0) declared heterogeneous: c(z) = h(z); the declaration
+    # lists c only (a is left out of the dictionary, which the documentation allows)
     def residual(z, uval, params):
-        return jnp.stack([poly_jax(q, z) + a * uval[0] * params.eq_params["a"] for q, a in res])
+        extra = params.eq_params["c"] if hc else 0.0
+        return jnp.stack([poly_jax(q, z) + a * uval[0] * params.eq_params["a"] + extra for q, a in res])
+    hkw = {}
+    if hc:
+        hfun = {"ode": (lambda t, u, params: poly_jax(hc, jnp.atleast_1d(t))), "statio": (lambda x, u, params: poly_jax(hc, x)),
+                "nonstatio": (lambda t, x, u, params: poly_jax(hc, jnp.concatenate([t, x])))}[kind]
+        hkw = dict(eq_params_heterogeneity={"c": hfun})
     if kind == "ode":
         class Eq(jinns.loss.ODE):
             def equation(self, t, u, params):
@@ -71,7 +79,7 @@ def make_loss(cfg):
         class Eq(jinns.loss.PDENonStatio):
             def equation(self, t, x, u, params):
                 return residual(jnp.concatenate([t, x]), u(t, x, params), params)
-    P = Params(nn_params=u.init_params(), eq_params={"a": jnp.array(1.0)})
+    P = Params(nn_params=u.init_params(), eq_params=dict({"a": jnp.array(1.0)}, **({"c": jnp.array(0.0)} if hc else {})))
     W = lambda w: (jnp.array(w) if isinstance(w, (list, tuple)) else float(w))
     kw = {}
 
@@ -89,7 +97,7 @@ def make_loss(cfg):
         lw = LW(jinns.loss.LossWeightsODE, dyn_loss=W(cfg.get("w_dyn", 1.0)), initial_condition=W(cfg.get("w_ic", 1.0)), observations=W(cfg.get("w_obs", 1.0)))
         if cfg.get("ic"):
             kw["initial_condition"] = (cfg["ic"]["t0"], jnp.array(cfg["ic"]["u0"]))
-        L = jinns.loss.LossODE(u=u, dynamic_loss=Eq() if cfg.get("dyn", True) else None, params=P, **lw, **kw)
+        L = jinns.loss.LossODE(u=u, dynamic_loss=Eq(**hkw) if cfg.get("dyn", True) else None, params=P, **lw, **kw)
     else:
         if cfg.get("norm"):
             kw["norm_samples"] = jnp.array(cfg["norm"]["samples"]); kw["norm_int_length"] = cfg["norm"]["L"]
@@ -101,14 +109,14 @@ def make_loss(cfg):
         if kind == "statio":
             lw = LW(jinns.loss.LossWeightsPDEStatio, dyn_loss=W(cfg.get("w_dyn", 1.0)), norm_loss=W(cfg.get("w_norm", 1.0)),
                                                  boundary_loss=W(cfg.get("w_bc", 1.0)), observations=W(cfg.get("w_obs", 1.0)))
-            L = jinns.loss.LossPDEStatio(u=u, dynamic_loss=Eq() if cfg.get("dyn", True) else None, params=P, **lw, **kw)
+            L = jinns.loss.LossPDEStatio(u=u, dynamic_loss=Eq(**hkw) if cfg.get("dyn", True) else None, params=P, **lw, **kw)
         else:
             lw = LW(jinns.loss.LossWeightsPDENonStatio, dyn_loss=W(cfg.get("w_dyn", 1.0)), norm_loss=W(cfg.get("w_norm", 1.0)), boundary_loss=W(cfg.get("w_bc", 1.0)),
                                                     observations=W(cfg.get("w_obs", 1.0)), initial_condition=W(cfg.get("w_ic", 1.0)))
             if cfg.get("ic"):
                 icp = cfg["ic"]["polys"]
                 kw["initial_condition_fun"] = lambda x: jnp.stack([poly_jax(p, x) for p in icp])
-            L = jinns.loss.LossPDENonStatio(u=u, dynamic_loss=Eq() if cfg.get("dyn", True) else None, params=P, **lw, **kw)
+            L = jinns.loss.LossPDENonStatio(u=u, dynamic_loss=Eq(**hkw) if cfg.get("dyn", True) else None, params=P, **lw, **kw)
     if cfg.get("reweight"):
         # the weight is replaced on the existing object (eqx.tree_at does not re-run __post_init__): the loss must use the weight it holds now
         w = cfg.get("w_dyn", 1.0)
@@ -138,7 +146,8 @@ def make_batch(cfg):
 def residual_polys(cfg):
     """r_c = q_c + a_c * u_0 as polynomials of the batch point"""
     u0 = cfg["upolys"][0]
-    return [padd(q, {k: a * v for k, v in u0.items()}) for q, a in cfg["res"]]
+    hc = cfg.get("het_c") or {}
+    return [padd(padd(q, {k: a * v for k, v in u0.items()}), hc) for q, a in cfg["res"]]
 
 
 def cpoly(p):
